@@ -27,7 +27,7 @@ func TestForeignSelf(t *testing.T) {
 	rapid.Check(t, func(rt *rapid.T) {
 		c := genCase(rt)
 		f := &Foreign{AbsHF: rapid.Bool().Draw(rt, "abshf"), AbsAll: rapid.Bool().Draw(rt, "absall"), AbsPkg: rapid.Bool().Draw(rt, "abspkg"),
-			Media1: rapid.Bool().Draw(rt, "media1"), RelIDs: rapid.IntRange(0, 2).Draw(rt, "relids")}
+			Media1: rapid.Bool().Draw(rt, "media1"), RelIDs: rapid.IntRange(0, 2).Draw(rt, "relids"), JpgCT: rapid.Bool().Draw(rt, "jpgct")}
 		if !f.any() {
 			return
 		}
@@ -69,6 +69,17 @@ func TestForeignSelf(t *testing.T) {
 			if f.RelIDs == 2 && strings.HasPrefix(r.ID, "rId") {
 				rt.Fatalf("%+v: id %q kept", *f, r.ID)
 			}
+		}
+		for _, name := range v1.pkg.SortedNames() {
+			if _, ok := v1.pkg.ContentTypeOf(name); !ok && name != "[Content_Types].xml" && !strings.HasSuffix(name, "/") {
+				rt.Fatalf("%+v: part %s of the rewritten package has no content type", *f, name)
+			}
+			if f.JpgCT && strings.HasSuffix(name, ".jpeg") {
+				rt.Fatalf("%+v: part %s kept its name", *f, name)
+			}
+		}
+		if f.JpgCT && (v1.pkg.Defaults["jpg"] != "image/jpeg" || v1.pkg.Defaults["jpeg"] != "") {
+			rt.Fatalf("%+v: Defaults %v", *f, v1.pkg.Defaults)
 		}
 		if f.Media1 {
 			if _, ok := v1.pkg.Parts["word/media/image0.png"]; ok {
